@@ -17,6 +17,7 @@
 package c46
 
 import (
+	"strconv"
 	"fmt"
 	"sort"
 	"strings"
@@ -143,7 +144,16 @@ func model(o *pebble.Options) []kv {
 	add(O, "read_compaction_rate", "%d", o.ReadCompactionRate)
 	add(O, "read_sampling_multiplier", "%d", o.ReadSamplingMultiplier)
 	add(O, "num_deletions_threshold", "%d", o.NumDeletionsThreshold)
-	add(O, "deletion_size_ratio_threshold", "%f", o.DeletionSizeRatioThreshold)
+	// written with %f when that round-trips, else with the shortest round-tripping representation
+	// (see the "fix: Options.String keeps a small deletion_size_ratio_threshold" commit)
+	if ds := fmt.Sprintf("%f", o.DeletionSizeRatioThreshold); func() bool {
+		v, err := strconv.ParseFloat(ds, 32)
+		return err == nil && float32(v) == o.DeletionSizeRatioThreshold
+	}() {
+		add(O, "deletion_size_ratio_threshold", "%s", ds)
+	} else {
+		add(O, "deletion_size_ratio_threshold", "%s", strconv.FormatFloat(float64(o.DeletionSizeRatioThreshold), 'g', -1, 32))
+	}
 	add(O, "tombstone_dense_compaction_threshold", "%f", o.TombstoneDenseCompactionThreshold())
 	add(O, "table_cache_shards", "%d", o.FileCacheShards)
 	add(O, "validate_on_ingest", "%t", o.ValidateOnIngest)
